@@ -26,6 +26,10 @@ Verdict(r) ==
            kOfDevs == SelectSeq(r.devs, LAMBDA d: d.kbd)
        IN (IF r.devs # expDevs \/ r.kbds # expKbds THEN {"C16-not-local"} ELSE {})
           \cup (IF r.kbds # [i \in 1..Len(kOfDevs) |-> Strip(kOfDevs[i])] THEN {"C16-paths-disagree"} ELSE {})
+          \cup (IF \E i \in 1..Len(r.entries): LET e == Kinds[r.entries[i]]  s == Single[r.entries[i]] IN
+                      \/ (e.kind \in SureKeyboard /\ (Len(s.devs) # 1 \/ ~s.devs[1].kbd \/ Len(s.kbds) # 1))
+                      \/ (e.kind \in SureNotKeyboard /\ ((Len(s.devs) >= 1 /\ s.devs[1].kbd) \/ s.kbds # <<>>))
+                THEN {"C16-real-device-misclassified"} ELSE {})
           \cup (IF \E i \in 1..Len(r.kbds): r.exk[i] # Excluded(r.kbds[i].name, r.excludes) THEN {"C16-exclusion-all-keyboards"} ELSE {})
           \cup (IF \E i \in 1..Len(r.devs): r.exd[i] # Excluded(r.devs[i].name, r.excludes) THEN {"C16-exclusion-dev-file"} ELSE {})
 
